@@ -1,12 +1,16 @@
 #!/bin/bash
-# usage: tools/regress.sh <fix-commit> <check ids...>  -- re-introduce the defect a fix commit repaired and run the checks
+# usage: tools/regress.sh <fix-commit> <check ids...>
+# Re-introduces the defect a fix commit repaired (reverse patch on a scratch worktree of /repo's HEAD) and runs the checks there.
 c="$1"; shift
-d=$(mktemp -d /tmp/regress.XXXX)
-git -C /repo diff -U0 "$c" "$c~1" > "$d/rev.diff"
+wt=$(mktemp -d /tmp/regress.XXXX)
+git -C /repo worktree add -q --detach "$wt" HEAD || exit 3
+cp /repo/src/multidecoder/_version.py "$wt/src/multidecoder/_version.py" 2>/dev/null  # generated file, not tracked
+git -C /repo diff "$c" "$c~1" > "$wt.diff"
+( cd "$wt" && (git apply "$wt.diff" 2>/dev/null || git apply -3 "$wt.diff" 2>/dev/null || git apply --unidiff-zero <(git -C /repo diff -U0 "$c" "$c~1")) ) || { echo "revert $c: PATCH FAILED"; git -C /repo worktree remove --force "$wt"; rm -f "$wt.diff"; exit 3; }
+suite=$(cd "$wt" && PYTHONPATH="$wt/src" /venv/bin/python -m pytest -q -p no:cacheprovider 2>&1 | tail -1)
 for p in "$@"; do
-  out=$(/verif/tools/with_patch.sh "$d/rev.diff" /verif/bin/check "$p" --no-confirm 2>&1)
-  if echo "$out" | grep -q "patch does not apply"; then echo "revert $c: PATCH FAILED"; continue; fi
+  out=$(VERIF_REPO="$wt" /verif/bin/check "$p" --no-confirm 2>&1)
   n=$(echo "$out" | grep -c "^VIOLATION")
-  echo "revert $c -> $p: $n violation signatures; $(echo "$out" | grep -m1 'clause' | cut -c1-200)"
+  echo "revert $c [suite: $suite] -> $p: $n violation signatures; $(echo "$out" | grep -m1 'clause' | cut -c1-160)"
 done
-rm -rf "$d"
+git -C /repo worktree remove --force "$wt"; rm -f "$wt.diff"
